@@ -205,6 +205,15 @@ def plan(tier, seed):
                                 inter[extra] = al[extra]
                         for ch in e1.deviations(inter, 2):
                             P.append({'fam': fam, 'changes': ch})
+    # closed-loop (SBT) reservoir and well bores feeding the same surface plants
+    sbt_pairs = F.SBT_PAIRS + ((41, 1), (51, 2), (32, 1))
+    for fam in F.sbt_grid(econs=(3,), pairs=sbt_pairs, shapes=((6, 2, 1), (3, 4, 1)) if tier == 'quick' else ((6, 2, 1), (3, 4, 1), (30, 1, 1), (2, 12, 1))):
+        P.append({'fam': fam, 'changes': {}, 'base': True})
+        if fam['shape'] == [6, 2, 1] and (fam['config'] == 5 or tier == 'thorough'):
+            al = alphabets(fam)
+            al['Production Flow Rate per Well'] = ['8', '40']
+            for ch in e1.deviations(al, 1):
+                P.append({'fam': fam, 'changes': ch})
     return P
 
 
